@@ -1,18 +1,27 @@
 PIPEFIX = ["engine/umem_count.c", "engine/pipefix.c", "engine/fake_upump.c", "engine/heapcount.c"]
-ZOO = lib("upipe-modules", only=["upipe_idem.c","upipe_skip.c","upipe_htons.c","upipe_delay.c","upipe_setattr.c","upipe_setflowdef.c","upipe_probe_uref.c","upipe_match_attr.c","upipe_setrap.c","upipe_dup.c","upipe_genaux.c"])
+ZOO = lib("upipe-modules", only=["upipe_idem.c","upipe_skip.c","upipe_htons.c","upipe_delay.c","upipe_setattr.c","upipe_setflowdef.c","upipe_probe_uref.c","upipe_match_attr.c","upipe_setrap.c","upipe_dup.c","upipe_genaux.c","upipe_time_limit.c","upipe_video_blank.c","upipe_void_source.c","upipe_rtp_decaps.c","upipe_blit.c"])
 QUEUE = lib("upipe-modules", only=["upipe_queue.c","upipe_queue_sink.c","upipe_queue_source.c"])
 TS = lib("upipe-ts", only=["upipe_ts_align.c","upipe_ts_sync.c","upipe_ts_check.c"])
 TARGET = dict(
-    rule=("tape-decoded history over a chain of 1-6 pipes drawn from idem, skip, delay, setattr, probe_uref, setflowdef, setrap, htons, match_attr, dup, genaux (a pipe with a request of its own) and "
-          "ts_align (a bin built on helper_bin_input / helper_bin_output) ending in two recording tails (policy: throw to its probe / hold and provide later / unhandled); executor 'queue' cuts the chain "
+    rule=("tape-decoded history over a chain of 1-6 pipes drawn from idem, skip, delay, setattr, probe_uref, setflowdef, setrap, htons, match_attr, dup, genaux (a pipe with a request of its own), "
+          "ts_align (a bin built on helper_bin_input / helper_bin_output), and the kinds with requests of their own through the helpers: time_limit (helper_uclock, re-required after every successful control "
+          "command until answered, attach_uclock), video_blank (helper_flow_format, whose answer requires a ubuf_mgr through helper_ubuf_mgr, whose answer becomes the output flow definition), rtp_decaps "
+          "(demand_ubuf_mgr), void_source (head only: helper_uref_mgr, then helper_uclock, then its timer), blit (control_ubuf_mgr in front of control_output) and hbin, a bin written in the harness with the "
+          "repository's UPIPE_HELPER_BIN_INPUT / BIN_OUTPUT / INNER / UCLOCK / UREF_MGR / UBUF_MGR macros around an idem (inner pipe dropped, built again, replaced directly; uclock and demanded uref_mgr "
+          "requests of its own through register_bin_output_request; optionally control_ubuf_mgr in front), ending in two recording tails (policy: throw to its probe / hold and provide later / unhandled); "
+          "executor 'queue' cuts the chain "
           "with qsink ~> qsrc on two harness-stepped loops; the harness registers and unregisters up to 8 requests of the five types (uref_mgr, flow_format, ubuf_mgr, uclock, sink_latency; flow-format "
-          "dictionaries tagged with request id and generation) at any pipe, changes outputs (other tail, another pipe, NULL, back), sets flow definitions (which rebuilds the inner pipes of the bin), "
+          "dictionaries tagged with request id and generation) at any pipe, changes outputs (other tail, another pipe, NULL, back), sets flow definitions (which rebuilds the inner pipes of the bin, makes the "
+          "pipes issue their own requests), "
           "provides lodged requests at the tails (once, repeatedly, after unregistration on the far side of the queue), steps either loop, releases pipes, lets a callback re-enter (register another request); "
-          "service probes uprobe_uref_mgr / uprobe_ubuf_mem / uprobe_uclock are present or absent per case. non-trivial = an output was replaced while a request was registered and an answer arrived "
+          "service probes uprobe_uref_mgr / uprobe_ubuf_mem / uprobe_uclock are present or absent per case and their object is replaced during the history (uprobe_*_set: another object, NULL, the first one). "
+          "non-trivial = an output was replaced while a request was registered and an answer arrived "
           "afterwards; distinct by hash of the decoded history"),
     assumptions=["reference model of the request lists of upipe_helper_output / helper_bin_input and of the out-of-band messages of the queue pipes (harness/C12_requests.c), written from the helper documentation",
                  "fixture: recording probes and tails, fake event loops (engine/pipefix.c, fake_upump.c); stand-in bitstream headers for ts_align's inner pipes (ts_sync, ts_check)",
-                 "lodged requests are identified by type and tagged dictionary, never by pointer order"],
+                 "lodged requests are identified by type and tagged dictionary, never by pointer order; requests without dictionary that a tail cannot tell apart are told apart by following the proxies' pointers to the original request (in-thread only)",
+                 "when each pipe calls require / demand is read from its source (time_limit, video_blank, rtp_decaps, void_source, genaux); what require, demand, provide and clean then do is the helpers' documentation",
+                 "named exclusion blit-forwards-unanswered-ubuf-mgr (pending/C12-blit-forwards-unanswered-ubuf-mgr-request.patch): a blit is only built where uprobe_ubuf_mem answers every ubuf_mgr request that reaches it"],
     execs=[dict(name="inthread", harness="harness/C12_requests.c", repo=LIBUPIPE + ZOO + TS, engine=PIPEFIX, cflags=["-DC12_QUEUE=0"], share=0.5),
            dict(name="queue", harness="harness/C12_requests.c", repo=LIBUPIPE + ZOO + TS + QUEUE, engine=PIPEFIX, cflags=["-DC12_QUEUE=1"], share=0.5)],
     quick=dict(cases=12000, budget=40, floor=2000), thorough=dict(cases=300000, budget=600, floor=20000),
@@ -24,5 +33,6 @@ META = dict(
          "events thrown per probe when nobody downstream handles a request, the callbacks on the original requests (exactly one per answer, carrying the provided object, none after unregister), the pipe's own request being answered; "
          "end-of-case audit for leaks. Sampling.",
     design_ref="DESIGN.md section 6, C12",
-    note="bins other than ts_align (same control idiom: filters, dvbcsa, hls, rtp_demux, id3v2, worker) are not exercised; allocation failures are not generated",
+    note="bins other than ts_align and the harness-written hbin (same control idiom: filters, dvbcsa, hls, rtp_demux, id3v2, worker) are not exercised; allocation failures are not generated; "
+         "demand_uref_mgr runs only in hbin's instance (its repository users are file / network / demux sources); blit's own flow_format negotiation is not modelled (no flow_format request is generated upstream of a blit)",
 )
